@@ -263,17 +263,17 @@ def parent_of(cfg, path):
 # ------------------------------------------------------------------------------------------------
 
 
-def freeze(value, cc):
-    """A comparable, hashable-free deep copy of a value with type tags."""
+def freeze(value, cc, with_ids=False):
+    """A comparable deep copy of a value with type tags (and object identities when asked)."""
     if isinstance(value, cc.Config):
-        return ("cfg", snapshot(value, cc))
-    if isinstance(value, (list, tuple)) and not hasattr(value, "_fields"):
-        return (type(value).__name__, [freeze(v, cc) for v in value])
+        return ("cfg", snapshot(value, cc, with_ids)) + ((id(value),) if with_ids else ())
+    if isinstance(value, (list, tuple)) and not isinstance(value, cc.DigestValue):
+        return (type(value).__name__, [freeze(v, cc, with_ids) for v in value]) + ((id(value),) if with_ids and isinstance(value, list) else ())
     if isinstance(value, dict):
-        return (type(value).__name__, [(freeze(k, cc), freeze(v, cc)) for k, v in value.items()])
+        return (type(value).__name__, [(freeze(k, cc), freeze(v, cc, with_ids)) for k, v in value.items()]) + ((id(value),) if with_ids else ())
     if isinstance(value, float):
         return ("float", repr(value))
-    if type(value).__name__ == "DigestValue":
+    if isinstance(value, cc.DigestValue):
         return ("digest", bytes(value.salt), bytes(value.digest))
     if isinstance(value, (str, int, bool, bytes, type(None))):
         return (type(value).__name__, value)
@@ -281,18 +281,14 @@ def freeze(value, cc):
 
 
 def snapshot(cfg, cc, with_ids=False):
-    """Deep snapshot through the public read API: values, user-defined marks, nested identities."""
+    """Deep snapshot through the public read API: values, user-defined marks, (identities)."""
     out = {}
     for key, value in cfg:
-        entry = {"v": freeze(value, cc)}
+        entry = {"v": freeze(value, cc, with_ids)}
         try:
             entry["defined"] = cc.is_value_defined(cfg, key)
         except Exception as exc:  # pragma: no cover
             entry["defined"] = repr(exc)
-        if with_ids and isinstance(value, (cc.Config, list, dict)):
-            entry["id"] = id(value)
-        if with_ids and isinstance(value, list):
-            entry["item_ids"] = [id(v) for v in value if isinstance(v, cc.Config)]
         out[key] = entry
     return out
 
